@@ -189,6 +189,12 @@ inductive Op where
   | render (c n : Nat) (ok : Bool)      -- c.Render: `ok` = a renderer is registered and produced n bytes
   | file (found : Bool) (n disp ct : Nat) -- File/FileFS (disp 0), Attachment (1), Inline (2); ct by extension
   | hijack                              -- c.Response().Hijack()
+  -- round 6: the remaining optional-interface probes of the standard library.  echo.Response has
+  -- no WriteString: io.WriteString converts and calls Response.Write; io.Copy from a source WITH
+  -- WriteTo (strings.Reader, bytes.Reader) calls that WriteTo, which ends in one Write of
+  -- everything (none for an empty source).  The commit bookkeeping is Write's.
+  | writeString (n : Nat)               -- io.WriteString(c.Response(), n bytes)
+  | copyWT (n : Nat)                    -- io.Copy(c.Response(), strings.NewReader(n bytes))
 deriving DecidableEq, Repr, Inhabited
 
 /-- content-type ids -/
@@ -289,6 +295,10 @@ def step (s : St) : Op → St × Ret
   -- Hijack goes to the underlying writer (through http.ResponseController); nothing of the
   -- bookkeeping is touched; the recording writer never hands out a connection
   | .hijack => (s, ⟨0, true⟩)
+  | .writeString n => let (s, acc, err) := write s n; (s, ⟨acc, err⟩)
+  | .copyWT n =>
+    let (s, err) := writes s ([n].filter (· ≠ 0))
+    (s, ⟨0, err⟩)
 
 /-- the state after a whole program -/
 def run (s : St) (prog : List Op) : St := prog.foldl (fun s o => (step s o).1) s
@@ -369,6 +379,8 @@ def commitAttempt (s : St) : Op → Option (St × Nat)
   | .write _ => some (s, pendOf s.status)
   | .flush | .flushRC | .flushFE => some (s, pendOf s.status)
   | .copy chunks _ => if chunks.filter (· ≠ 0) = [] then none else some (s, pendOf s.status)
+  | .writeString _ => some (s, pendOf s.status)
+  | .copyWT n => if [n].filter (· ≠ 0) = [] then none else some (s, pendOf s.status)
   | .json c _ ok => if ok then some ({ writeCT s ctJSON with status := c }, pendOf c) else none
   | .blob c ct _ => some (writeCT s ct, c)
   | .stream c _ _ => some (writeCT s ctStream, c)
@@ -434,6 +446,8 @@ def pOp : P Op := do
   | 19 => do let c ← nat; let n ← nat; let ok ← bool; pure (.render c n ok)
   | 20 => do let f ← bool; let n ← nat; let d ← nat; let ct ← nat; pure (.file f n d ct)
   | 21 => pure .hijack
+  | 22 => do let n ← nat; pure (.writeString n)
+  | 23 => do let n ← nat; pure (.copyWT n)
   | _ => failure
 
 def encEv : Ev → List String
